@@ -1,4 +1,5 @@
 import NmVerif.NN.PoolLemmas
+import NmVerif.NN.ConvLemmas
 /-
   C17 — neural-network routines equal their reference (PyTorch) definitions.
 
@@ -99,5 +100,123 @@ theorem pool_window_in_bounds (lead li : List Nat) (H W kh kw sh sw i j : Nat) (
   simp at hmem
 
 example : PoolDom 5 3 2 true ∧ poolExtent 5 3 2 true = 2 := by decide
+
+
+/-! ## convolution -/
+
+/-- an optional integer argument as the C++ receives it: `None` or an `int` -/
+def form : Option Nat → PArg
+  | none => .none
+  | some v => .int v
+
+theorem strideVal_form (s : Option Nat) : strideVal (form s) = strideOf s := by cases s <;> rfl
+theorem padVal_form (p : Option Nat) : padVal (form p) = paddingOf p := by cases p <;> rfl
+theorem dilV_form (d : Option Nat) : dilV (form d) = dilationOf d := by cases d <;> rfl
+
+theorem posForm_form {s : Option Nat} (h : ∀ v, s = some v → 0 < v) : PosForm (form s) := by
+  cases s with
+  | none => exact Or.inl rfl
+  | some v => exact Or.inr ⟨v, h v rfl, rfl⟩
+
+theorem intForm_form (p : Option Nat) : IntForm (form p) := by
+  cases p with
+  | none => exact Or.inl rfl
+  | some v => exact Or.inr ⟨v, rfl⟩
+
+/-- **conv1d, any stride / zero padding / dilation / groups / optional bias, each passed as `None` or as an integer.**
+    For an input `(1, g·Cg, L)`, a weight `(Og·g, Cg, K)` (so `groups = g` is any common divisor of the channel counts)
+    and an optional bias `(Og·g)`, with the dilated kernel fitting the padded input, the `view::convnd` pipeline
+    (reshape by groups → pad → sliding_window of input and of the dilation-expanded weight → multiply → sum → reshape →
+    bias → strided slice) is defined, has the extent `⌊(L + 2p − d(K−1) − 1)/s⌋ + 1`, and every element is the nested
+    loop `bias[o] + Σ_c Σ_k xpad[grp(o)·Cg + c, l·s + k·d] · w[o,c,k]` — with the group of output channel `o` being
+    `o % g` (`grpCode`), which is what the code does.  Quantified over all `x`, `w` of integers, so the equality of the
+    two sums is an identity of the (input index, weight index) term sets. -/
+theorem conv1d_eq_code_loop (x w : Arr Int) (bias : Option (Arr Int)) (Og g Cg L K : Nat) (stride padding dilation : Option Nat)
+    (hx : x.shape = [1, g * Cg, L]) (hw : w.shape = [Og * g, Cg, K]) (hb : ∀ b, bias = some b → b.shape = [Og * g])
+    (hOg : 0 < Og) (hg : 0 < g) (hK : 0 < K)
+    (hs : ∀ v, stride = some v → 0 < v) (hd : ∀ v, dilation = some v → 0 < v)
+    (hfit : Fits L K (paddingOf padding) (dilationOf dilation)) :
+    ∃ r, convnd 1 x w bias (form stride) (form padding) (form dilation) g = .ok r ∧
+      r.shape = [1, Og * g, outSize L K (strideOf stride) (paddingOf padding) (dilationOf dilation)] ∧
+      ∀ o l, o < Og * g → l < outSize L K (strideOf stride) (paddingOf padding) (dilationOf dilation) →
+        r.get [0, o, l] = conv1dLoop (grpCode g) x w bias L Cg K (strideOf stride) (paddingOf padding) (dilationOf dilation) o l := by
+  have hfit' : (K - 1) * dilV (form dilation) + 1 ≤ L + 2 * padVal (form padding) := by
+    rw [dilV_form, padVal_form, Nat.mul_comm]; exact hfit
+  have := convnd1_eq_codeLoop (bias := bias) hx hw hb hOg hg hK (posForm_form hs) (intForm_form padding) (posForm_form hd) hfit'
+  simpa only [strideVal_form, padVal_form, dilV_form] using this
+
+/-- output shape of conv1d = the standard formula, for all parameters (a corollary of `conv1d_eq_code_loop`; the
+    shape does not depend on the group assignment, so it holds for every `groups`) -/
+theorem conv_out_shape_eq_formula (x w : Arr Int) (bias : Option (Arr Int)) (Og g Cg L K : Nat) (stride padding dilation : Option Nat)
+    (hx : x.shape = [1, g * Cg, L]) (hw : w.shape = [Og * g, Cg, K]) (hb : ∀ b, bias = some b → b.shape = [Og * g])
+    (hOg : 0 < Og) (hg : 0 < g) (hK : 0 < K)
+    (hs : ∀ v, stride = some v → 0 < v) (hd : ∀ v, dilation = some v → 0 < v)
+    (hfit : Fits L K (paddingOf padding) (dilationOf dilation)) :
+    ∃ r, convnd 1 x w bias (form stride) (form padding) (form dilation) g = .ok r ∧
+      r.shape = [1, Og * g, outSize L K (strideOf stride) (paddingOf padding) (dilationOf dilation)] := by
+  obtain ⟨r, h1, h2, _⟩ := conv1d_eq_code_loop x w bias Og g Cg L K stride padding dilation hx hw hb hOg hg hK hs hd hfit
+  exact ⟨r, h1, h2⟩
+
+/-- **conv1d = the PyTorch nested loop** (group of output channel `o` is `o / (O/groups)`) on the domain where the
+    code's group assignment agrees with it: `groups = 1`, or one output channel per group (`O = groups`, e.g.
+    depthwise).  Any stride, padding, dilation, bias.  Outside: `conv1d_groups_counterexample`. -/
+theorem conv1d_eq_nested_loop (x w : Arr Int) (bias : Option (Arr Int)) (Og g Cg L K : Nat) (stride padding dilation : Option Nat)
+    (hx : x.shape = [1, g * Cg, L]) (hw : w.shape = [Og * g, Cg, K]) (hb : ∀ b, bias = some b → b.shape = [Og * g])
+    (hOg : 0 < Og) (hg : 0 < g) (hK : 0 < K)
+    (hs : ∀ v, stride = some v → 0 < v) (hd : ∀ v, dilation = some v → 0 < v)
+    (hfit : Fits L K (paddingOf padding) (dilationOf dilation))
+    (hdom : g = 1 ∨ Og = 1) :
+    ∃ r, convnd 1 x w bias (form stride) (form padding) (form dilation) g = .ok r ∧
+      r.shape = [1, Og * g, outSize L K (strideOf stride) (paddingOf padding) (dilationOf dilation)] ∧
+      ∀ o l, o < Og * g → l < outSize L K (strideOf stride) (paddingOf padding) (dilationOf dilation) →
+        r.get [0, o, l] = conv1dLoop (grpSpec (Og * g) g) x w bias L Cg K (strideOf stride) (paddingOf padding) (dilationOf dilation) o l := by
+  obtain ⟨r, h1, h2, h3⟩ := conv1d_eq_code_loop x w bias Og g Cg L K stride padding dilation hx hw hb hOg hg hK hs hd hfit
+  refine ⟨r, h1, h2, fun o l ho hl => ?_⟩
+  rw [h3 o l ho hl]
+  exact conv1dLoop_congr_grp (grpCode_eq_grpSpec hdom ho) x w bias L Cg K _ _ _ l
+
+/-- witnesses used by the examples / counterexamples: `x[0,c,j] = 10·c + j + 1`, `w[o,c,k] = 100·o + 10·c + k + 1` -/
+def xW (shape : Shape) : Arr Int := ⟨shape, fun i => match i with | [_, c, j] => (10 * c + j + 1 : Nat) | _ => 0⟩
+def wW (shape : Shape) : Arr Int := ⟨shape, fun i => match i with | [o, c, k] => (100 * o + 10 * c + k + 1 : Nat) | _ => 0⟩
+
+/-- non-vacuity: C = 4, groups = 2, O = 2, L = 5, K = 2, stride 2, padding 1, dilation 2 — defined, shape (1,2,3), and
+    element (0,1,2) is the nested loop -/
+example : ∃ r, convnd 1 (xW [1, 4, 5]) (wW [2, 2, 2]) none (form (some 2)) (form (some 1)) (form (some 2)) 2 = .ok r ∧
+    r.shape = [1, 2, 3] ∧ r.get [0, 1, 2] = conv1dLoop (grpSpec 2 2) (xW [1, 4, 5]) (wW [2, 2, 2]) none 5 2 2 2 1 2 1 2 := by
+  obtain ⟨r, h1, h2, h3⟩ := conv1d_eq_nested_loop (xW [1, 4, 5]) (wW [2, 2, 2]) none 1 2 2 5 2 (some 2) (some 1) (some 2)
+    rfl rfl (by intro b h; cases h) (by decide) (by decide) (by decide) (by intro v h; cases h; decide) (by intro v h; cases h; decide)
+    (by decide) (Or.inr rfl)
+  exact ⟨r, h1, h2, h3 1 2 (by decide) (by decide)⟩
+
+/-- element read from an evaluation (0 when undefined) -/
+def Res.getD (r : Res (Arr Int)) (i : Idx) : Int := match r with | .ok a => a.get i | _ => 0
+def Res.shapeD (r : Res (Arr Int)) : Shape := match r with | .ok a => a.shape | _ => []
+
+/-- known finding conv.groups-interleaved: C = 2, O = 4, groups = 2, K = L = 1, weights all 1, `x = (1, 2)`.
+    Output channel 1 belongs to group 0 (PyTorch: reads `x[0] = 1`) but the code computes it from group `1 % 2 = 1`
+    (reads `x[1] = 2`). -/
+theorem conv1d_groups_counterexample :
+    let x : Arr Int := ⟨[1, 2, 1], fun i => match i with | [_, c, _] => (c + 1 : Nat) | _ => 0⟩
+    let w : Arr Int := ⟨[4, 1, 1], fun _ => 1⟩
+    Res.getD (convnd 1 x w none .none .none .none 2) [0, 1, 0] = 2
+      ∧ conv1dLoop (grpSpec 4 2) x w none 1 1 1 1 0 1 1 0 = 1
+      ∧ conv1dLoop (grpCode 2) x w none 1 1 1 1 0 1 1 0 = 2 := by
+  decide
+
+/-- known finding conv.batch-gt-1: a batch of 2 has no defined result (`conv_reshape_input` drops the batch extent,
+    the reshape is Nothing) — with padding None the view is Nothing, with an integer padding the Nothing is unwrapped. -/
+theorem conv1d_batch_counterexample :
+    (convnd 1 (xW [2, 1, 2]) (wW [1, 1, 1]) none .none .none .none 1).isOk = false
+      ∧ (convnd 1 (xW [2, 1, 2]) (wW [1, 1, 1]) none .none (.int 0) .none 1).isOk = false := by
+  decide
+
+/-- known finding conv2d.dilation-pair-reversed: input (1,1,1,3), kernel (1,2), dilation pair (d_h, d_w) = (2, 1):
+    the reference extent is (1, 2); the code dilates W by `d_h` and obtains (1, 1). -/
+theorem conv2d_dilation_pair_counterexample :
+    let x : Arr Int := ⟨[1, 1, 1, 3], fun _ => 1⟩
+    let w : Arr Int := ⟨[1, 1, 1, 2], fun _ => 1⟩
+    Res.shapeD (convnd 2 x w none .none .none (.arr [2, 1]) 1) = [1, 1, 1, 1]
+      ∧ [1, 1, outSize 1 1 1 0 2, outSize 3 2 1 0 1] = [1, 1, 1, 2] := by
+  decide
 
 end NmVerif.Props.C17
